@@ -162,7 +162,22 @@ def install_hook():
         _hook_installed[0] = True
 
 
-def run_one(src, view=False):
+VIEW_TXNS = [{'amount': 5.0, 'date': datetime.datetime(2025, 1, 15), 'category': 'Food', 'subcategory': 'X', 'merchant': 'M', 'tags': ['a']},
+             {'amount': 7.5, 'date': datetime.datetime(2025, 2, 3), 'category': 'Food', 'subcategory': 'X', 'merchant': 'M', 'tags': ['b']}]
+VIEW_PRIMITIVES = ['payments', 'months', 'category', 'subcategory', 'merchant', 'tags', 'cv', 'total', 'true', 'false']
+VIEW_FNS = ['sum', 'count', 'avg', 'max', 'min', 'stddev', 'abs', 'round', 'by', 'period', 'max_val', 'min_val']
+
+
+def module_public_names():
+    """Public names of (side-effect free) standard modules: what a lookup that falls through to a module would expose."""
+    import collections, decimal, difflib, fractions, functools, itertools, json, math, operator, re, statistics, string
+    names = set()
+    for m in (statistics, math, operator, itertools, functools, collections, re, datetime, json, difflib, string, decimal, fractions):
+        names.update(n for n in dir(m) if not n.startswith('_') and n.isidentifier())
+    return sorted(names)
+
+
+def run_one(src, view=False, raw_view=False):
     """Load and evaluate one expression text under the audit hook; returns dict(cls, detail, events, mutated)."""
     from tally import expr_parser as EP
     install_hook()
@@ -189,7 +204,10 @@ def run_one(src, view=False):
             before = ast.dump(tree)
             _armed[0] = 'eval'
             try:
-                if view:
+                if view and raw_view:
+                    # the VALUE of a view expression (evaluate_filter would hide it behind bool())
+                    v = EP.evaluate(src, EP.create_context(transactions=copy.deepcopy(VIEW_TXNS), num_months=2, variables=dict(vars_)))
+                elif view:
                     v = EP.evaluate_filter(src, [{'amount': 5.0, 'date': datetime.datetime(2025, 1, 15), 'category': 'Food',
                                                   'subcategory': 'X', 'merchant': 'M', 'tags': ['a']}], variables=dict(vars_))
                 else:
@@ -203,7 +221,7 @@ def run_one(src, view=False):
                 out['cls'] = 'err'
             except RecursionError:
                 out['cls'] = 'err'
-            except Exception as e:
+            except BaseException as e:         # SystemExit / KeyboardInterrupt from exit(), quit() ... must not kill the worker
                 out['cls'] = 'raw'
                 out['detail'] = '%s: %s' % (type(e).__name__, str(e)[:80])
             if ast.dump(tree) != before:
@@ -293,21 +311,29 @@ def concretise_state(st, dunder, other, rnd, quick):
             srcs.append(('(%s) and true' % snip if not snip.startswith('*') else 'max(%s)' % snip, allowed | ({'rej-syntax'})))
         return srcs
     if shape in ('name', 'call'):
-        names = {'primitive': ['description', 'amount', 'date', 'month', 'year', 'day', 'weekday', 'source', 'true', 'false'],
-                 'variable': ['big', 'lim', 'BIG'], 'data_source': ['orders'], 'whitelisted_fn': WHITELISTED_FNS,
-                 'python_builtin': [n for n in PY_BUILTINS if n != 'abs_'], 'dunder_name': DUNDER_NAMES,
-                 'unknown': ['nosuch', 'txn', 'field', 'self', 'ctx', 'os', 'sys']}[cls]
+        view = st.get('ev') == 'view'
+        own_fns = VIEW_FNS if view else WHITELISTED_FNS
+        own_prims = VIEW_PRIMITIVES if view else ['description', 'amount', 'date', 'month', 'year', 'day', 'weekday', 'source', 'true', 'false']
+        legit = set(own_fns) | set(own_prims) | {'big', 'lim', 'orders', 'location', 'field', 'txn'}
+        names = {'primitive': own_prims,
+                 'variable': ['big', 'lim', 'BIG'], 'data_source': ['orders'], 'whitelisted_fn': own_fns,
+                 'python_builtin': [n for n in PY_BUILTINS if n != 'abs_' and n not in legit], 'dunder_name': DUNDER_NAMES,
+                 'module_public': [n for n in module_public_names() if n.lower() not in legit],
+                 'unknown': ['nosuch', 'self', 'ctx', 'os', 'sys'] + (['txn', 'field'] if not view else ['description', 'amount', 'orders'])}[cls]
+        tag = 'VIEW:' if view else ''
         for n in names:
             if shape == 'name':
                 if cls == 'whitelisted_fn':
                     continue
-                srcs.append((n, out))
+                srcs.append((tag + n, out))
             else:
                 if cls in ('primitive', 'variable', 'data_source'):
-                    srcs.append(('%s(1)' % n, {'err'}))
+                    srcs.append((tag + '%s(1)' % n, {'err'}))
                 else:
-                    for args in ('', '1', '"x"', 'description', 'txn', '"os"', 'orders', '"a", "b"'):
-                        srcs.append(('%s(%s)' % (n, args), out))
+                    argsets = ('', '1', '"x"', 'payments', 'merchant, category', '"a", "b"') if view else \
+                        ('', '1', '"x"', 'description', 'txn', '"os"', 'orders', '"a", "b"')
+                    for args in argsets:
+                        srcs.append((tag + '%s(%s)' % (n, args), out))
         return srcs
     attrs = {'txn_known': TXN_KNOWN, 'field_builtin': FIELD_BUILTIN, 'field_captured': ['kind', 'memo', 'KIND'],
              'row_key': ['item', 'n', 'AMOUNT'], 'str_method_ok': STR_OK, 'str_method_other': [n for n in dir(str) if not n.startswith('__') and n not in STR_OK],
@@ -344,6 +370,16 @@ def worker(item):
     n = 0
     classes = {}
     for src, allowed in srcs:
+        if src.startswith('VIEW:'):            # a state of the view evaluator's name / function table: judged on the raw value
+            src = src[5:]
+            res = run_one(src, view=True, raw_view=True)
+            n += 1
+            classes[res['cls']] = classes.get(res['cls'], 0) + 1
+            for clause, what in judge(src, res, allowed, origin):
+                fails.append(({'site': 'view-evaluator', 'clause': clause, 'origin': origin},
+                              {'expr': src, 'result': {k: str(v) for k, v in res.items()}, 'allowed': sorted(allowed) if allowed else None},
+                              'view filter %r: %s' % (src, what)))
+            continue
         for view in (False, True):
             if view and origin != 'payload':
                 continue
@@ -434,7 +470,7 @@ def run(ck):
     ck.sample({'payload': PAYLOADS[0], 'outcome': run_one(PAYLOADS[0])['cls']})
     ck.sample({'access_pattern_state': states[len(states) // 2]})
     ck.extra['rule'] = ('every (access shape x receiver class x attribute class) state of Confine.tla concretised with the real attribute '
-                        'names of str/bytes/dict/list/set/float/int/bool/date/builtin/type/generator/TransactionContext on every receiver expression; every AST node kind; %d escape payloads (both evaluators) '
+                        'names of str/bytes/dict/list/set/float/int/bool/date/builtin/type/generator/TransactionContext on every receiver expression; the name and function tables of BOTH evaluators against builtins, dunder names and the public names of 13 standard modules; every AST node kind; %d escape payloads (both evaluators) '
                         'and random splices of them' % len(PAYLOADS))
     ck.exhaustive = True
 
